@@ -75,12 +75,29 @@ def _w(a):
     return np.array(a, dtype=float)
 
 
+_LD = {}
+
+
+def _coords(d):
+    """the coordinate arrays handed to the implementation.  With d['ld'] the arrays are numpy.longdouble (the
+    type the code works in) and the SAME array objects are handed over by every fit of the problem that has
+    these coordinates (base fit, other centre, rescaled / uniform weights), as a caller that keeps its
+    catalogs in long double would do: the relations must hold for that caller too"""
+    if not d.get('ld'):
+        return np.array(d['xy'], dtype=float), np.array(d['uv'], dtype=float)
+    key = (np.array(d['xy'], dtype=float).tobytes(), np.array(d['uv'], dtype=float).tobytes())
+    if key not in _LD:
+        _LD[key] = (np.array(d['xy'], dtype=np.longdouble), np.array(d['uv'], dtype=np.longdouble))
+    return _LD[key]
+
+
 def run_iter(d, par):
     """iter_linear_fit on data d (xy, uv, wxy, wuv, center) with parameters par"""
     from tweakwcs import linearfit
     try:
+        axy, auv = _coords(d)
         fit = linearfit.iter_linear_fit(
-            np.array(d['xy'], dtype=float), np.array(d['uv'], dtype=float), wxy=_w(d['wxy']), wuv=_w(d['wuv']),
+            axy, auv, wxy=_w(d['wxy']), wuv=_w(d['wuv']),
             fitgeom=par['geom'], center=None if d['center'] is None else list(d['center']),
             nclip=par['nclip'], sigma=par['sigma'], clip_accum=par['clip_accum'])
     except Exception as e:  # noqa: BLE001
@@ -438,7 +455,7 @@ def gen_problem(rng):
     stat = rng.choice(['rmse', 'rmse', 'mae', 'std'])
     nsig = rng.choice([1.5, 2.0, 2.5, 3.0, 5.0])
     sigma = (nsig, stat) if rng.random() < 0.8 else nsig
-    data = {'xy': xy.tolist(), 'uv': uv.tolist(), 'wxy': wxy, 'wuv': wuv, 'center': cen}
+    data = {'xy': xy.tolist(), 'uv': uv.tolist(), 'wxy': wxy, 'wuv': wuv, 'center': cen, 'ld': rng.random() < 0.3}
     par = {'geom': geom, 'nclip': nclip, 'sigma': sigma, 'clip_accum': rng.random() < 0.5}
     return {'data': data, 'par': par, 'family': fam, 'S': S, 'wmode': wmode}
 
@@ -639,6 +656,7 @@ def _count(ctx, case, nontrivial, branch, impl=True):
 
 def check_problem(ctx, prob, rels, lines, pending):
     d, par = prob['data'], prob['par']
+    _LD.clear()
     geom = par['geom']
     n = len(d['xy'])
     # ---- iter_linear_fit ------------------------------------------------
